@@ -103,11 +103,29 @@ THEOREMS = [
 LEVEL_TEXT = ("Lean theorems over R about the four Butcher tableaux, the per-body attraction, the step-size update and MAX_ITER translated from "
               "keplernum.py on every run: all rooted-tree order conditions (Euler 1; RK4 all 8 up to order 4; RKF54 and DOPRI54 all 17 up to order 5 for "
               "the propagated weights, all 8 up to order 4 for the embedded weights), row sums and shape for every integrator, FSAL row; the modelled "
-              "field is Newton's law, central and energy-conserving; for the modelled step: exact quadrature of polynomial right-hand sides of degree < p "
-              "for every step size, Taylor polynomial of exp on the linear test equation, an adaptive step is only accepted with its estimate <= tol, a "
-              "rejected step strictly shrinks and keeps its sign. One KeplerNum object through any history of attribute assignments (method, step, tol, "
-              "bodies, in-place list changes), copy() and calls: the reply to a call is a function of the CURRENT attribute values only (= the reply of a "
-              "fresh object), the step is that of the tableau selected by the current method, copy() keeps every setting. The padding rule of _iter "
+              "field is Newton's law, central and energy-conserving. CONVERGENCE (Props/C06Conv on Lemmas/Gronwall, OneStep, Gravity): the discrete "
+              "Gronwall inequality and the global error of any one-step method in a normed space (local error <= C h^(p+1), step map (1+h Lambda)-"
+              "Lipschitz => global error <= C h^p (e^(Lambda T)-1)/Lambda, by induction on the number of steps); for the model's generic step on the "
+              "regenerated Euler tableau: local truncation error <= (h^2/2) sup|y''| (Taylor, mean-value inequality), global error <= (B h/2)(e^(L T)-1) "
+              "for every autonomous field bounded by B and L-Lipschitz on a set containing the exact and the numerical states, and with explicit constants "
+              "B = max(v_max, mu/r_min^2), L = max(1, 2 mu/r_min^3) for the regenerated two-body field on |r| >= r_min, |v| <= v_max (first order, fully "
+              "proved; the circular orbit satisfies every hypothesis); the attraction is 2mu/m^3-Lipschitz on the whole (non-convex) exterior |r| >= m, is "
+              "the gradient of mu/|r| (HasGradientAt), and energy and every component of r x v have derivative 0 along ANY solution of the modelled "
+              "equation of motion; the model's step on the regenerated RK4 tableau IS the classical Runge-Kutta map, which is "
+              "(1+z+z^2/2+z^3/6+z^4/24)-Lipschitz (z = hL), equals the degree-4 Taylor polynomial of exp(hA) on every linear system y' = A y, converges "
+              "unconditionally (order >= 1) for globally Lipschitz bounded autonomous fields, at order 4 GIVEN the local error C h^5 (_partial), and at "
+              "order 4 with no hypothesis left on the linear test equation (local error = exp remainder <= |y||h lambda|^5/100). ADAPTIVE CONTROLLER "
+              "(Props/C06Adapt): an adaptive step is only accepted with its embedded estimate <= tol; a rejected pass contracts the step by at least "
+              "(1/2)^(1/(s-1)) whatever its sign, also through timedelta's rounding to microseconds; the step-size loop ends within its fuel whenever the "
+              "estimate is within tol for all |h| <= h* (e.g. an O(h^m) estimate, h* = (tol/K)^(1/m)) and theta^fuel |h| + fuel*0.5us <= h*. For the modelled "
+              "step also: exact quadrature of polynomial right-hand sides of degree < p, Taylor polynomial of exp on the linear test equation. "
+              "One KeplerNum object through any history of attribute assignments (method, step, tol, bodies, FRAME, in-place list changes), BINDINGS "
+              "(prop.orbit = orb stores the caller's orbit converted to the frame current at that moment), copy() and calls: the reply to a call is a "
+              "function of the CURRENT attribute values only (= the reply of a fresh object), an Orbit-level call (bind, then step) integrates the caller's "
+              "orbit as seen in the current frame with the current settings whatever was bound before (another satellite, another frame), copy() keeps "
+              "every setting incl. the frame and starts unbound, a frame assigned after a binding does not re-bind (why Orbit.propagate re-binds at every "
+              "call). The request as written by the caller (NumericalPropagator.iter / propagate translated from base.py on every run): a relative stop "
+              "is counted from the start of the request, a relative target from the epoch. The padding rule of _iter "
               "(loop condition, interp flag, padding count, order argument of Ephem(...) and DEFAULT_ORDER translated from the source on every run): "
               "whenever an output is interpolated the tabulation holds >= DEFAULT_ORDER points, starts at the start, reaches the stop and is interpolated "
               "at order DEFAULT_ORDER however short the span; the same for the positioning phase of propagate(). The object graph of outputs (position of "
@@ -116,12 +134,19 @@ LEVEL_TEXT = ("Lean theorems over R about the four Butcher tableaux, the per-bod
               "consumption), each return their own orbit's trajectory. The step model, the object histories "
               "and the tabulations are tied to KeplerNum._make_step/_accel, to real objects driven through the same histories, and to the Ephem objects "
               "the real _iter builds, by differential correspondence runs.")
-LEVEL_NOTE = ("the classical theorem 'order conditions up to p => global convergence at order p' is cited, not formalised; convergence of the real propagator, "
-              "first-integral drift and resampling independence are searched by the oracle only; the Lagrange window arithmetic of utils/interp.py is C09's; "
-              "R -> double gap covered by tolerance-bounded correspondence; Lean kernel + propext/Classical.choice/Quot.sound; AST translator and harness trusted")
-TECHNIQUE = ("Lean 4 proof (norm_num / ring / rpow lemmas / induction on fuel, on histories and on the list of accepted step sizes / omega) over tables, "
-             "formulas and loop conditions regenerated from the Python AST; differential correspondence of the compiled models with KeplerNum._make_step/_accel, "
-             "with real objects driven through random operation sequences, and with the tabulations the real _iter hands to Ephem")
+LEVEL_NOTE = ("order 4 of RK4 (and 5 of the adaptive pairs) for a general smooth field rests on the local-error hypothesis of rk4_global_error_partial: "
+              "Butcher's theorem 'order conditions up to p => local error O(h^(p+1))' (Taylor expansion against elementary differentials) is cited, not "
+              "formalised beyond p = 1 and beyond linear problems; the convergence theorems are about the MODEL (exact real arithmetic, numerical states "
+              "assumed to stay in |r| >= r_min, |v| <= v_max) with constants exponential in the span (e^(L T), L >= 1/s in the unweighted sup norm: an order "
+              "statement, not a usable error budget); convergence of the real propagator, the size of the first-integral drift, the true local error of an "
+              "accepted adaptive step (<= 2 tol) and resampling independence are searched by the oracle only; the Lagrange window arithmetic of "
+              "utils/interp.py is C09's; R -> double gap covered by tolerance-bounded correspondence; Lean kernel + propext/Classical.choice/Quot.sound; "
+              "AST translator and harness trusted")
+TECHNIQUE = ("Lean 4 proof (norm_num / ring / rpow lemmas / induction on fuel, on histories, on the number of steps and on the list of accepted step "
+             "sizes / omega; Mathlib's mean-value inequalities, inner-product calculus, exp series bound) over tables, formulas, loop conditions and "
+             "request normalisation regenerated from the Python AST; differential correspondence of the compiled models with KeplerNum._make_step/_accel, "
+             "with real objects driven through random operation sequences (incl. frame changes and bindings), with the (start, stop) the real _iter receives "
+             "and with the tabulations it hands to Ephem")
 TRUSTED = [
     "harness/props/C06.py: extract() reads BUTCHER (entries kept as the source's rational expressions), the body of `for body in self.bodies` of _accel, "
     "the step-size update statement and MAX_ITER of _make_step from the AST into Generated/KeplerNum{F,R}.lean on every run; the tableau reading is "
@@ -129,9 +154,13 @@ TRUSTED = [
     "harness/props/C06.py: translate_iter() reads from `KeplerNum._iter` the condition of the march loop, the `interp` assignment, the padding count of the "
     "positioning phase and the `order` argument of both Ephem(...) calls, from ephem.py DEFAULT_ORDER and the order defaulting of Ephem.__init__, into "
     "Generated/KNIterSrc.lean; the loop bodies and the positioning loop condition are compared textually with what Model/KNIter.lean models (any other "
-    "shape is an extraction failure = a broken obligation)",
+    "shape is an extraction failure = a broken obligation); translate_request() reads from base.py (NumericalPropagator.iter / propagate) what a relative "
+    "stop and a relative target are counted from (relStop, relTarget), the defaulting of `start` and the forwarding to _iter being compared textually",
     "lean/templates/RK.tpl (hand-written stage loop, weight combination, error estimate, accept/shrink loop), lean/templates/KNObj.tpl (attribute state "
-    "machine), lean/BeyondVerif/Model/KNIter.lean (march / padding over the reported step sizes): tied by the correspondence runs",
+    "machine incl. frame and bound orbit; the frame conversion is an input: the caller's orbit is given as its state in every candidate frame, computed "
+    "by the real code), lean/BeyondVerif/Model/KNIter.lean (march / padding over the reported step sizes): tied by the correspondence runs",
+    "Props/C06Conv.lean Coords (coordsSt: a state (r, v) of EuclideanSpace R^3 x R^3 as the model's list [x, y, z, vx, vy, vz]); accelCentral_coords proves "
+    "that the regenerated `_accel` with the central body at the origin is (v, -mu r/|r|^3) in these coordinates",
     "harness/py2lean.py Tr.expr for scalar entries",
     "numpy / libm double arithmetic vs R: tolerance 1e-11 relative on the step result",
 ]
@@ -139,44 +168,63 @@ ASSUMPTIONS = [
     "point-mass bodies, no maneuvers in the Lean model (ImpulsiveMan/ContinuousMan handling of _make_step/_accel belongs to C17; the re-use oracle does "
     "change the orbit's maneuvers between calls and compares with a fresh propagator); tol > 0",
     "theorems are over R; the implementation computes in IEEE doubles; dates/steps have microsecond resolution (usRound in the model; Int microseconds in KNIter)",
-    "cited, not formalised: order conditions for all rooted trees with <= p vertices imply local error O(h^(p+1)) and global convergence at order p "
+    "convergence theorems: the exact solution exists on the span and, with the numerical states, stays in the set where the field is bounded and Lipschitz "
+    "(two-body: |r| >= r_min, |v| <= v_max — hypotheses huK/hyK, not derived); fixed step h > 0 with n h = T (the fixed-step methods; the adaptive "
+    "march with varying accepted steps is covered per step only); RK4: h L <= 1",
+    "cited, not formalised: order conditions for all rooted trees with <= p vertices imply local error O(h^(p+1)) for p >= 2 on non-linear problems "
     "(Butcher; Hairer-Norsett-Wanner, Solving ODEs I, II.2-II.3); the list of the 17 trees with <= 5 vertices is hand-written (orders and densities proved)",
     "the embedded error estimate p_error is a cancelling sum (sum(b - b_star) = 0): passes whose estimate lies within 2e-16 |h||v| of tol are "
     "incomparable between numpy's and the model's summation order and are skipped by the correspondence (counted as step-borderline-skipped)",
-    "object histories in the Lean model use bodies at rest (the correspondence drives real KeplerNum objects with duck-typed fixed bodies); the `frame` "
-    "attribute, the bound orbit and its maneuvers are outside the Lean state machine and covered by the re-use oracle on the public API",
+    "object histories in the Lean model use bodies at rest IN THE FRAME OF THE ORBIT (the correspondence drives real KeplerNum objects with duck-typed fixed "
+    "bodies whose `frame` attribute is a plain attribute); the frame conversion of the bound orbit is an input of the model (C02); the orbit's maneuvers "
+    "are outside the Lean state machine and covered by the re-use oracle on the public API",
     "KNIter takes the accepted step sizes `_make_step` reports as an input list (observed on the real run in the correspondence); theorems hold for every such list",
 ]
 NOT_COVERED = [
-    "global convergence of the real propagator at order p, energy / angular-momentum drift bounds, adaptive error per step and over a span: oracle only "
+    "global convergence of the REAL propagator at order p, the size of energy / angular-momentum drift of the numerical solution, true local error of an "
+    "accepted adaptive step and over a span: oracle only "
     "(observed order by step halving read off the finest pair above the interpolation floor: >= 3.5 for RK4, >= 0.7 for Euler — one-sided, because over "
     "whole numbers of revolutions the h^4 term nearly cancels and RK4 shows 4.9; error bounds scaled by (n_p h)^p resp. tol; one-step local error <= 2 tol)",
+    "order 4 / 5 for a general smooth field (local error from the order conditions): hypothesis of rk4_global_error_partial; nothing is proved about the "
+    "global error of the adaptive methods over a span of varying steps",
+    "stage times t + c_i h of `_make_step` (`y_n_prime.date += step * c`) and the date of the new state: the field of the property (one central point "
+    "mass) does not depend on time, every correspondence body is at rest, so the use of `c` in the real code is not tied (third bodies, thrust: C17)",
     "resampling accuracy (Ephem Lagrange-8 over float MJD): oracle only. The 'few millimetres' of the property hold for n_p*h <= 0.05; the floor is "
     "6 ulp(MJD) x speed (up to 15 mm observed at perigee speed, edge interval) and the Lagrange remainder reaches decimetres to metres for the coarsest "
     "steps in low eccentric orbits (observed 7 m at h = 120 s, e = 0.6, perigee 200 km), tolerance 5 rp (n_p h)^8 there",
     "which `order` points of the tabulation Interp._lagrange selects around a date (window arithmetic): C09; here only that the tabulation has them and "
     "which order is requested (observed on the Ephem objects the real _iter builds)",
     "the dates `_iter` yields (Ephem.iter, Date.range): the iteration contract is C08 (iter(stop=..., step=...) also yields dates after `stop`, up to the "
-    "first integration node past it — reported to C08); the short-span oracle checks that the requested dates come first",
+    "first integration node past it — reported to C08; iter(start=None) raises AttributeError — listed by C08); the short-span oracle checks that the "
+    "requested dates come first",
     "targets within +-3 orbits are reached by the thorough tier only up to 900 integration steps per run (quick: 130)",
 ]
-OPEN = ["accel_energy is the algebraic identity v.a + mu (r.v)/rho^3 = 0; the HasDerivAt form (the attraction is the gradient of mu/rho) is not stated",
+OPEN = ["the derivation of the local error C h^5 of RK4 (and C h^6 of the order-5 weights) from the proved order conditions for a general C^p field "
+        "(Butcher series); with it rk4_global_error_partial becomes unconditional",
+        "the two-body convergence constants use the unweighted sup norm (L = max(1, 2mu/r_min^3)); a weighted norm max(|r|, |v|/omega) would give "
+        "L = omega = sqrt(2 mu / r_min^3) ~ 1.5e-3 /s in LEO; that the numerical states stay in |r| >= r_min is a hypothesis",
+        "errEst = |(y_b - y_bstar)[:3]| (the estimate IS the difference of the two embedded solutions) and an O(h^2) bound of it for Lipschitz fields, which "
+        "would discharge the hypothesis of adaptive_terminates, are not proved (the termination theorem takes the smallness of the estimate as hypothesis)",
         "quadrature exactness and the linear test equation are stated per tableau with explicit polynomial coefficients, not as one theorem "
         "'bushy/tall-tree conditions => exactness' for an arbitrary tableau",
-        "the object state machine has no `frame` / bound-orbit component (the `orbit` setter converts a copy at every Orbit.propagate / Orbit.iter call); "
-        "KNIter does not model Ephem.iter / the yielded dates (C08's model does)",
-        "runReqs models the binding only (which orbit a lazily started iterator integrates); settings changed on a sibling's propagator are oracle-only"]
+        "KNIter does not model Ephem.iter / the yielded dates (C08's model does); runReqs models the binding of lazily started iterators by identity only; "
+        "a setting changed on ONE sibling's propagator between creation and consumption of another sibling's iterator is oracle-only (copy() shares the "
+        "`bodies` list object between all copies: an in-place `bodies.append` on one sibling reaches all — value semantics, C15)"]
 RULE = ("correspondence: the five method names incl. unknown ones (tableaux bit-exact), _accel with Earth/Moon/Sun combinations on random bound orbits "
         "(perigee 200 km .. GEO+, e <= 0.74), _make_step for all four methods, steps 5-120 s both signs, tol 1e-9..1e-2, rtol 1e-11 (step size exact when "
-        "not shrunk); histories of 3-10 operations on ONE real KeplerNum object (assign method incl. upper-case / unknown names, step, tol, bodies; "
-        "bodies.append / pop in place; copy(); _make_step; butcher) against the model's state machine, each disagreeing call also compared with a fresh real "
-        "object (a difference there is a violation of the property itself); the Ephem objects (dates, order) the real _iter builds and its number of "
-        "_make_step calls for every request form (explicit step smaller/equal/larger/incommensurate, date lists, ranges, backward, offset start, "
+        "not shrunk); histories of 3-10 operations on ONE real KeplerNum object (constructed in EME2000 / TOD / MOD; assign method incl. upper-case / "
+        "unknown names, step, tol, bodies, frame incl. an unknown name; bodies.append / pop in place; prop.orbit = orb (bind), _make_step from the bound "
+        "orbit, read prop.orbit; copy(); _make_step on a given state; butcher) against the model's state machine, each disagreeing call also compared with "
+        "a fresh real object (a difference there is a violation of the property itself); the (start, stop) the real _iter receives for a request with a "
+        "relative stop / explicit start / relative target against the model of NumericalPropagator.iter / propagate (exact); the Ephem objects (dates, "
+        "order) the real _iter builds and its number of _make_step calls for every request form (explicit step smaller/equal/larger/incommensurate, date "
+        "lists, ranges, backward, offset start with absolute and with relative stop, "
         "Orbit.ephem, propagate, native step, step is self.step, listeners) on spans of 1..10 steps, all four methods, against KNIter fed with the "
         "observed accepted step sizes (exact); identity partition of the propagators of the points of several real outputs and which trajectory "
         "interleaved requests on sibling points return, against KNIter.outputsProps / runReqs; non-trivial = step != 0 resp. a call after a change resp. >= 1 integration step; distinct = distinct request "
-        "line. oracle, cheap families first: short spans (1..10 integration steps, the twelve request forms, every method) iterate vs propagate vs "
-        "analytical; one KeplerNum object re-used after changes of method / step / tol / bodies (also in place) / frame / maneuvers / bound orbit vs a "
+        "line. oracle, cheap families first: short spans (1..10 integration steps, the thirteen request forms, every method) iterate vs propagate vs "
+        "analytical; one KeplerNum object re-used after changes of method / step / tol / bodies (also in place) / frame / maneuvers / bound orbit / the "
+        "caller's orbit modified in place, shared by two orbit objects that are half of the time DIFFERENT satellites asked the same request, vs a "
         "fresh propagator and vs the analytical solution; sibling points of one output (iter / iter-step / ephem / propagate) as starts of "
         "interleaved requests (zip, reversed consumption, propagate in between, random next(), a setting changed on one sibling) vs each point's own "
         "fresh propagation, and one propagator object per point; adaptive global and one-step error over <= 30 steps both directions; chained propagate keeps "
@@ -868,21 +916,27 @@ def correspondence(ctx):
 # ---------------------------------------------------------------- correspondence: histories on one KeplerNum object
 
 class _FixedBody:
-    """a point mass at rest in EME2000 (duck-typed body: `µ`, `propagate(date)`)"""
+    """a point mass in UNIFORM MOTION in the frame of the orbit (duck-typed body: `µ`, `propagate(date)`): position `pos` at `epoch()`,
+    velocity `vel` (zero for most bodies: at rest)"""
 
-    def __init__(self, name, mu, pos):
+    def __init__(self, name, mu, pos, vel=(0.0, 0.0, 0.0)):
         self.name = name
         setattr(self, "μ", mu)      # `body.µ`: the identifier is NFKC-normalised by the parser to U+03BC
         self.pos = list(pos)
+        self.vel = list(vel)
 
     def propagate(self, date):
-        # `_accel` does `orb_body.frame = orb.frame` and reads `orb_body[:3]`: the body is at rest IN THE FRAME OF THE ORBIT, whatever
-        # that frame is (the assignment is a plain attribute here, no conversion)
+        # `_accel` does `orb_body.frame = orb.frame` and reads `orb_body[:3]`: the body moves IN THE FRAME OF THE ORBIT, whatever
+        # that frame is (the assignment is a plain attribute here, no conversion).  `date` is the date of the stage.
         import numpy as np
-        return np.array(self.pos + [0.0, 0.0, 0.0], float).view(_FrameFree)
+        t = (date - epoch()).total_seconds()
+        return np.array([p_ + t * v_ for p_, v_ in zip(self.pos, self.vel)] + self.vel, float).view(_FrameFree)
 
     def tokens(self):
-        return [f2b(float(getattr(self, "μ")))] + [f2b(float(v)) for v in self.pos + [0.0, 0.0, 0.0]]
+        return [f2b(float(getattr(self, "μ")))] + [f2b(float(v)) for v in self.pos + self.vel]
+
+    def desc(self):
+        return [getattr(self, "μ")] + self.pos + self.vel
 
 
 class _FrameFree(__import__("numpy").ndarray):
@@ -907,6 +961,11 @@ def gen_history(rng, mu):
         m_, d_ = rng.choice([(4.9e12, 3.8e8), (1.3e20, 1.5e11), (3.0e13, 1.0e9)])
         u = [rng.uniform(-1, 1) for _ in range(3)]
         n = math.sqrt(sum(x * x for x in u)) or 1.0
+        if rng.random() < 0.5:
+            # a heavy mass passing by: its displacement within one step changes the attraction by ~1 %, so the DATE at which each
+            # stage evaluates the bodies (`y_n_prime.date += step * c`) is visible in the result
+            w = [rng.uniform(-1, 1) for _ in range(3)]
+            return _FixedBody("passing", 1.0e14, [6.0e7 * x / n for x in u], [1.0e4 * x for x in w])
         return _FixedBody("far", m_, [d_ * x / n for x in u])
     central = _FixedBody("central", mu, [0.0, 0.0, 0.0])
     name = lambda: rng.choice(METHODS + METHODS + ["RK4", "Dopri54", "rk5", "EULER"])
@@ -1072,8 +1131,8 @@ def corr_histories(ctx, out, mu):
     for req, (init, ops), rep in zip(reqs, hist, replies):
         model = rep.split(" ; ")
         desc = {"initial": {"method": init["method"], "step": init["step"], "tol": init["tol"], "frame": init["frame"],
-                            "bodies": [[getattr(b, "μ")] + b.pos for b in init["bodies"]]},
-                "ops": [{k: ([getattr(x, "μ")] + x.pos if isinstance(x, _FixedBody) else [[getattr(b, "μ")] + b.pos for b in x] if k == "bodies" else x)
+                            "bodies": [b.desc() for b in init["bodies"]]},
+                "ops": [{k: (x.desc() if isinstance(x, _FixedBody) else [b.desc() for b in x] if k == "bodies" else x)
                          for k, x in op.items() if k != "rv"} for op in ops]}
         if len(model) != len(ops):
             out.fail("c06-seq", "reply length of a history", desc, observed=len(ops), expected=rep[:200])
@@ -1760,9 +1819,11 @@ def check_adaptive(out, o, h, T, mu, method, tol):
     dE = abs(energy(r, mu) / energy(o["x0"], mu) - 1)
     L0 = angmom(o["x0"])
     dL = float(np.linalg.norm(angmom(r) - L0) / np.linalg.norm(L0))
-    b = 1e-11 + 100 * (N + 8) * tol / o["rp"]
+    # a position error d at radius r changes the energy by (mu/r^2) d, i.e. relatively by 2 a d / r^2 = 2 d / (rp (1 - e)) at perigee: the
+    # natural scale of the drift per accepted step is tol / (rp (1 - e)) (observed 5.1e-10 at e = 0.69, perigee 214 km, 12 steps, tol 1.5e-6)
+    b = 1e-11 + 100 * (N + 8) * tol / (o["rp"] * (1 - o["e"]))
     if dE > b or dL > b:
-        out.fail(method + "-drift", "relative energy / angular momentum drift exceeds 100 N tol / rp", inp, observed={"dE": dE, "dL": dL}, expected=b)
+        out.fail(method + "-drift", "relative energy / angular momentum drift exceeds 100 N tol / (rp (1 - e))", inp, observed={"dE": dE, "dL": dL}, expected=b)
     # one step of the integrator itself, from a state on the exact orbit
     p = orb.propagator
     hs, y1 = p._make_step(p.orbit, timedelta(seconds=math.copysign(h, T if T else 1.0)))
@@ -2295,7 +2356,7 @@ def replay_history(out, i):
     """a recorded history on one real object: at every call, the re-used object against a fresh one with the same attribute values"""
     from beyond.dates import timedelta
     from beyond.propagators.keplernum import KeplerNum
-    mk = lambda b: _FixedBody("b", b[0], b[1:4])
+    mk = lambda b: _FixedBody("b", b[0], b[1:4], b[4:7] if len(b) >= 7 else (0.0, 0.0, 0.0))
     init = i["initial"]
     prop = KeplerNum(timedelta(seconds=init["step"]), [mk(b) for b in init["bodies"]], method=init["method"], tol=init["tol"],
                      frame=init.get("frame", "EME2000"))
